@@ -64,11 +64,13 @@ CLAIMS = {
                 "No parser-level theorem yet (stated in C02.v). Oracles: .type/.call construction, eval-based integers.",
     },
     "C15": {
-        "text": "PARTIAL proof + full correspondence. Theorems (all inputs): every token returned by the tokenizer model carries the line of its first character "
-                "(1 + newlines before it) whatever precedes, the hand-on position advances by exactly the newlines consumed, a missing closing quote cites the last "
-                "line. Parser-level line numbers (objects, words, error lines incl. off regions) are compared between freephil and the model on renderings "
-                "whose generator records the true line of every token, on malformed variants and on token soup.",
-        "note": "Trusted as C02. Lines of unused-definition reports and value errors are covered by C06 / C10 streams. source_info label not varied.",
+        "text": "Theorems over the tokenizer + parser model for every input and every oracle table (closed under the global context): every token carries the line of its first "
+                "character whatever precedes it; the '#phil __OFF__' scanner keeps the line counter consistent for any region content; every scope/definition of a parsed tree "
+                "reports the line of the word that named it and every value word its own line (parse_lines_ok); every error cites the line of the token it names, the last line for a "
+                "missing closing quote, no line, or a line handed through from an oracle answer. Tied to the code by comparing every line freephil reports with the model's on "
+                "renderings whose generator records the true line of every token, on malformed variants and on token soup.",
+        "note": "Trusted: Coq kernel, extraction, driver, harness, hand-written model of tokenizer.py/parser.py. Lines of unused-definition reports and value errors are "
+                "covered by C06 / C10 streams; source_info label not varied; attributes carry no line in the model.",
     },
     "C16": {
         "text": "PARTIAL proof + correspondence. Theorem: the tokenizer model never yields an internal error and always terminates (fuel never exhausted). "
